@@ -343,4 +343,10 @@ fn test_chainable_undefined() {
     assert_eq!(render!(in env, "{{ undefined|list }}"), "[]");
     assert_eq!(render!(in env, "<{{ undefined|test }}>"), "<>");
     assert_eq!(render!(in env, "{{ 42 in undefined }}"), "False");
+    // the attr filter is the `[]` operator and chains like it
+    assert_eq!(render!(in env, "<{{ undefined|attr('x') }}>"), "<>");
+    assert_eq!(
+        render!(in env, "<{{ x.foo|attr('bar')|attr(0) }}>", x => empty_map()),
+        "<>"
+    );
 }
